@@ -5,7 +5,8 @@
 (*   [e |-> "Offer", c, kind, slen, from]  the inner listener handed       *)
 (*        connection c to the wrapper; kind "fall" | "term" | "rej";       *)
 (*        `from' = stream position a consumer must start at (bytes eaten   *)
-(*        by a non-terminal handler before the fall-through)               *)
+(*        by a non-terminal handler before the fall-through); tls = the    *)
+(*        connection is TLS and layer4 terminates it before falling through*)
 (*   [e |-> "Acc", c]         the wrapper's Accept returned connection c   *)
 (*   [e |-> "AccClosed"]      Accept returned net.ErrClosed                 *)
 (*   [e |-> "CRead", c, segs] the consumer read c to its end: positions of *)
@@ -21,7 +22,7 @@ EXTENDS L4Segs, TLC
 IsE(ev, name) == ev.e = name
 Idx(h, name) == { i \in 1..Len(h) : IsE(h[i], name) }
 OfferOf(h, c) == LET S == { i \in Idx(h, "Offer") : h[i].c = c } IN
-                 IF S = {} THEN [kind |-> "?", slen |-> 0, from |-> 0] ELSE h[CHOOSE i \in S : TRUE]
+                 IF S = {} THEN [kind |-> "?", slen |-> 0, from |-> 0, tls |-> FALSE] ELSE h[CHOOSE i \in S : TRUE]
 
 \* L1: a connection is delivered to Accept at most once
 L1(h) == \A i, j \in Idx(h, "Acc") : h[i].c = h[j].c => i = j
@@ -43,6 +44,8 @@ L6(h) == \A i \in Idx(h, "Offer") :
             LET c == h[i].c IN
             /\ (\E j \in Idx(h, "Acc") : h[j].c = c) \/ (\E j \in Idx(h, "ConnClosed") : h[j].c = c)
             /\ h[i].kind # "fall" => \E j \in Idx(h, "ConnClosed") : h[j].c = c
+\* L8: after TLS termination the delivered connection exposes the TLS connection state
+L8(h) == \A i \in Idx(h, "CRead") : OfferOf(h, h[i].c).tls => h[i].tls
 \* L7: no goroutine stays behind
 L7(h) == \A i \in Idx(h, "Leak") : h[i].n <= 0
 
@@ -51,6 +54,7 @@ ListenerViolations(h, complete) ==
   \cup (IF L2(h) THEN {} ELSE {"L2 a consumed or rejected connection was delivered to Accept"})
   \cup (IF L3(h) THEN {} ELSE {"L3 the consumer did not read the stream intact from the first unconsumed byte"})
   \cup (IF L4(h) THEN {} ELSE {"L4 a connection was closed by layer4 before being delivered"})
+  \cup (IF L8(h) THEN {} ELSE {"L8 a TLS-terminated connection was delivered without its TLS connection state"})
   \cup (IF ~complete \/ L5(h) THEN {} ELSE {"L5 Accept did not report closure after Close"})
   \cup (IF ~complete \/ L6(h) THEN {} ELSE {"L6 a connection was neither delivered nor closed (or a consumed/rejected one not closed)"})
   \cup (IF ~complete \/ L7(h) THEN {} ELSE {"L7 goroutines left behind after Close"})
